@@ -130,6 +130,8 @@ static inline SR scalarBin(int op, const Val& a, const Val& b, bool real) {
 // never treated as a violation.  Errors raised by compute() propagate.
 static inline bool applyBin(Ctx& c, binary_factory& fac, const dd_edge& a, const dd_edge& b, dd_edge& res) {
     binary_operation* bop = nullptr;
+    phase(std::string(fac.getName()) + ":" + shortNameOf(a.getForest()->getReductionRule()) + "," + shortNameOf(b.getForest()->getReductionRule()) +
+          "->" + shortNameOf(res.getForest()->getReductionRule()) + (res.getForest()->isForRelations() ? ":rel" : ":set"));
     try { bop = fac.build(a.getForest(), b.getForest(), res.getForest()); }
     catch (MEDDLY::error& e) {
         if (e.getCode() == error::TYPE_MISMATCH || e.getCode() == error::NOT_IMPLEMENTED) { c.count("combination_not_offered"); return false; }
@@ -141,6 +143,8 @@ static inline bool applyBin(Ctx& c, binary_factory& fac, const dd_edge& a, const
 }
 static inline bool applyUn(Ctx& c, unary_factory& fac, const dd_edge& a, dd_edge& res) {
     unary_operation* uop = nullptr;
+    phase(std::string(fac.getName()) + ":" + shortNameOf(a.getForest()->getReductionRule()) +
+          "->" + shortNameOf(res.getForest()->getReductionRule()) + (res.getForest()->isForRelations() ? ":rel" : ":set"));
     try { uop = fac.build(a.getForest(), res.getForest()); }
     catch (MEDDLY::error& e) {
         if (e.getCode() == error::TYPE_MISMATCH || e.getCode() == error::NOT_IMPLEMENTED) { c.count("combination_not_offered"); return false; }
